@@ -87,7 +87,38 @@ def all_reports(s, solve_kw=None):
     out["SaveDoc"] = ("digest", r if e is None else "exc:" + e)
     r, e = _try(lambda: tree_lines(s))
     out["Tree"] = ("digest", r if e is None else "exc:" + e)
+    r, e = _try(lambda: diag_sets(s))
+    out["Diag"] = ("digest", r if e is None else "exc:" + e)
     return out
+
+
+def diag_sets(s):
+    """make_diag(group=True) rendered to the dot source and parsed back: node names, edges, cluster membership"""
+    import os
+    import tempfile
+    import pydot
+    from sysloss.diagram import make_diag
+
+    def unq(x):
+        x = str(x)
+        return x[1:-1] if len(x) >= 2 and x[0] == '"' and x[-1] == '"' else x
+    fd, path = tempfile.mkstemp(suffix=".raw", prefix="sl_diag_")
+    os.close(fd)
+    try:
+        make_diag(s, fname=path, group=True)
+        g = pydot.graph_from_dot_file(path)[0]
+    finally:
+        if os.path.exists(path):
+            os.unlink(path)
+    skip = {"node", "edge", "graph", "\\n", ""}
+    nodes = [unq(n.get_name()) for n in g.get_nodes() if unq(n.get_name()) not in skip]
+    clusters = []
+    for sg in g.get_subgraphs():
+        members = sorted(unq(n.get_name()) for n in sg.get_nodes() if unq(n.get_name()) not in skip)
+        nodes += members
+        clusters.append([unq(sg.get_attributes().get("label", "")), members])
+    edges = sorted([unq(e.get_source()), unq(e.get_destination())] for e in g.get_edges())
+    return {"nodes": sorted(nodes), "edges": edges, "clusters": sorted(clusters)}
 
 
 def twin_cases(prefix, ra, rb, exact, what, id0, only=None):
